@@ -38,6 +38,7 @@ func runC20(r *engine.Run) {
 	r.Rule("WHO-filter", "the cores of a logger are combined by a plain zapcore.NewTee and core/logging builds no sampling or level-raising core (NewSampler*, NewIncreaseLevelCore, IncreaseLevel): every entry a logger accepts reaches the in-memory core")
 	r.Rule("WHO-reorder", "no function of core/logging hands a slice of logged entries to a sorting function (sort.Slice/SliceStable/Sort/Stable, slices.Sort*): the order of a snapshot is the order the ring was written in, never an order derived from a field of the entries (timestamps are taken before the write lock or supplied by the caller)")
 	r.Rule("LOCK-reentrant", "see C16: no function acquires a mutex of an object (directly, or through a call on the same receiver) while the calling goroutine already holds that mutex of the same object - here the core's RWMutex reached through the logger's core field; a nested RLock blocks for ever once a writer queues up between the two acquisitions")
+	r.Rule("SNAPSHOT-once", "in core/logging no read-lock acquisition of the ring's mutex, and no call of a function that makes one, sits inside a loop: a dump is one snapshot under one hold of the lock (paging through the ring with the lock released between pages repeats and skips entries when writes land in between)")
 	r.Rule("AGREE-wiring", "InitLogging tees every in-memory core it creates into exactly one logger (one GetCore() per created MemLogger variable): a core shared by two loggers holds the entries of both")
 	r.NotDec = append(r.NotDec, "'exactly the most recent N, newest first' as a sequence property of GetLogs' index arithmetic")
 	const rule = "LOCK-ring"
@@ -95,6 +96,7 @@ func runC20(r *engine.Run) {
 	shareLevel(r, "AGREE-share")
 	lockReentrant(r, "LOCK-reentrant", funcsOfPkg(r, pkgLog), 2)
 	agreeWiring(r, "AGREE-wiring")
+	snapshotOnce(r, "SNAPSHOT-once")
 }
 
 // sameCore: within one function, the core whose mu is locked is the core
